@@ -185,16 +185,27 @@ func (p *gcpPicker) getSubConnRef(boundKey string) (*subConnRef, error) {
 	return p.getLeastBusySubConnRef()
 }
 
-// Must be called holding the picker mutex lock.
-func (p *gcpPicker) getLeastBusySubConnRef() (*subConnRef, error) {
+// leastBusy returns the ready subConnRef with the least active streams or nil
+// if the picker has no ready subConnRefs.
+func (p *gcpPicker) leastBusy() *subConnRef {
+	if len(p.scRefs) == 0 {
+		return nil
+	}
 	minScRef := p.scRefs[0]
 	minStreamsCnt := minScRef.getStreamsCnt()
 	for _, scRef := range p.scRefs {
-		if scRef.getStreamsCnt() < minStreamsCnt {
-			minStreamsCnt = scRef.getStreamsCnt()
+		if cnt := scRef.getStreamsCnt(); cnt < minStreamsCnt {
+			minStreamsCnt = cnt
 			minScRef = scRef
 		}
 	}
+	return minScRef
+}
+
+// Must be called holding the picker mutex lock.
+func (p *gcpPicker) getLeastBusySubConnRef() (*subConnRef, error) {
+	minScRef := p.leastBusy()
+	minStreamsCnt := minScRef.getStreamsCnt()
 
 	// If the least busy connection still has capacity, use it
 	if minStreamsCnt < int32(p.gb.cfg.GetChannelPool().GetMaxConcurrentStreamsLowWatermark()) {
